@@ -37,6 +37,18 @@ impl Potential for LJShape2 {
             .map(|(s, o)| s.energy(o))
             .sum()
     }
+
+    fn interaction_range(&self) -> Option<f64> {
+        // The longest cutoff of any particle, between the particles furthest from the origin of
+        // either copy. A single particle without a cutoff interacts at any distance.
+        let mut cutoff: f64 = 0.;
+        let mut extent: f64 = 0.;
+        for item in self.items.iter() {
+            cutoff = cutoff.max(item.cutoff?);
+            extent = extent.max(distance(&Point2::origin(), &item.position));
+        }
+        Some(cutoff + 2. * extent)
+    }
 }
 
 impl Shape for LJShape2 {
